@@ -20,7 +20,9 @@ REPO = os.environ.get("VERIF_REPO", "/repo")
 CACHE = os.path.join(VERIF, ".cache")
 KANI_SEED = os.path.join(CACHE, "kani-seed")      # compiled dependencies of the framework only
 NATIVE_SEED = os.path.join(CACHE, "native-seed")
-EVIDENCE = os.path.join(VERIF, "evidence")
+# runs against a scratch tree (selftest, VERIF_REPO set) must not overwrite the evidence of /repo
+_SCRATCH_RUN = os.environ.get("VERIF_REPO", "/repo") != "/repo"
+EVIDENCE = os.path.join(CACHE, "scratch-evidence") if _SCRATCH_RUN else os.path.join(VERIF, "evidence")
 REPLAYS = os.path.join(VERIF, "replays")
 DEKU_MODEL = os.path.join(VERIF, "engine", "deku_model")
 TRACING_SHIM = os.path.join(VERIF, "engine", "shims", "tracing")
